@@ -3,7 +3,7 @@ import itertools
 import random
 import time
 
-from . import common, e1, kani_runner
+from . import common, e1, kani_runner, e3_extras
 
 PID = "C11"
 
@@ -175,8 +175,10 @@ def run(tier):
         if p.sig not in seen:
             seen.add(p.sig)
             uniq.append(p)
+    out = common.Outcome(PID)
+    extra = e3_extras.summary(e3_extras.c11_into(out))
     return e1.finish(
-        PID, tier, uniq, t0,
+        PID, tier, uniq, t0, outcome=out, extra=extra,
         rule="one Kani harness per program (shape x choice of default variant x per-field default-expression kind x type-level value x list form); the values that call / block "
              "expressions evaluate to are symbolic seeds; conversion is observed through a From impl that marks its result; distinct by shape|kinds|entry|type-value|list",
         bounds="named/tuple/unit structs and enums (<=3 variants) with <=3 fields; expression kinds %s" % sorted(KINDS),
